@@ -7,18 +7,43 @@ MaxLen == IF Tier = "thorough" THEN 8 ELSE 6
 Alphabet == {"a", " ", LFb, "r", "L", "c", "F"}
 RECURSIVE Strings(_)
 Strings(k) == IF k = 0 THEN {<<>>} ELSE LET S == Strings(k - 1) IN S \cup {Append(s, b) : s \in {x \in S : Len(x) = k - 1}, b \in Alphabet}
-Init == text \in {<<b>> : b \in Alphabet} \cup {<<>>} /\ n = 0
-(* grow the text byte by byte (n = 0), then fix a worker count *)
-Next == \/ n = 0 /\ Len(text) < MaxLen /\ \E b \in Alphabet : text' = Append(text, b) /\ n' = 0
-        \/ n = 0 /\ n' \in 1..(Len(text) + 2) /\ text' = text
-Out == IOEnv.KV_OUT
+(* modes "lines" and "crlf": texts built from whole lines of a VALID file (date headlines with LF or CRLF,
+   blank lines with LF or CRLF, whitespace-only lines, an unterminated last headline), each abstract byte
+   sequence paired with its concrete text, so that the real parsers return blocks for them *)
+Mode == IOEnv.KV_MODE
+A10 == <<"a", "a", "a", "a", "a", "a", "a", "a", "a", "a">>
+U(ab, cs) == [ab |-> ab, cs |-> cs]
+LineToks == {U(A10 \o <<LFb>>, "2020-01-01" \o LF), U(A10 \o <<"r", LFb>>, "2020-01-01" \o CRLF),
+             U(<<LFb>>, LF), U(<<"r", LFb>>, CRLF), U(<<" ", LFb>>, " " \o LF)}
+CrlfToks == {U(A10 \o <<LFb>>, "2020-01-01" \o LF), U(A10 \o <<"r", LFb>>, "2020-01-01" \o CRLF),
+             U(<<LFb>>, LF), U(<<"r", LFb>>, CRLF)}
+MaxToks == IF Mode = "lines" THEN (IF Tier = "thorough" THEN 6 ELSE 5) ELSE (IF Tier = "thorough" THEN 9 ELSE 7)
+(* worker counts: all of them for the byte mode; for the (much longer) line texts the small counts, where
+   chunks hold several blocks, and the counts around the text length *)
+NSet(t) == IF Mode = "crlf" THEN 2..(IF Tier = "thorough" THEN 8 ELSE 4)
+           ELSE IF Mode = "lines" THEN (1..8) \cup {Len(t) \div 2, Len(t) - 1, Len(t), Len(t) + 1, Len(t) + 2}
+           ELSE 1..(Len(t) + 2)
 Concrete(b) == CASE b = "a" -> "2" [] b = " " -> " " [] b = LFb -> LF [] b = "r" -> CR
                  [] b = "L" -> SymC3 [] b = "c" -> SymA9 [] b = "F" -> SymFF
-RECURSIVE ConcreteText(_)
-ConcreteText(t) == IF t = <<>> THEN "" ELSE Concrete(Head(t)) \o ConcreteText(Tail(t))
+Units == IF Mode = "lines" THEN LineToks \cup {U(A10, "2020-01-01")}
+         ELSE IF Mode = "crlf" THEN CrlfToks ELSE {U(<<b>>, Concrete(b)) : b \in Alphabet}
+(* mode "crlf": longer texts, but only the worker counts whose chunk size puts a boundary inside a CRLF *)
+SplitsCrlf(t, m) == LET size == CeilDiv(Len(t), m) IN
+                    \E k \in 1..m : k * size < Len(t) /\ t[k * size] = "r" /\ t[k * size + 1] = LFb
+Interesting(t, m) == Mode # "crlf" \/ SplitsCrlf(t, m)
+VARIABLES toks, ctext
+Init == text = <<>> /\ n = 0 /\ toks = 0 /\ ctext = ""
+(* grow the text unit by unit (n = 0), then fix a worker count *)
+Next == \/ /\ n = 0 /\ (IF Mode \in {"lines", "crlf"} THEN toks < MaxToks ELSE Len(text) < MaxLen)
+           /\ \E u \in Units : text' = text \o u.ab /\ ctext' = ctext \o u.cs /\ n' = 0 /\ toks' = toks + 1
+        \/ /\ n = 0 /\ n' \in {m \in NSet(text) : m >= 1 /\ Interesting(text, m)}
+           /\ UNCHANGED <<text, toks, ctext>>
+Out == IOEnv.KV_OUT
+RECURSIVE SetToSortedSeq(_)
+SetToSortedSeq(S) == IF S = {} THEN <<>> ELSE LET m == CHOOSE x \in S : \A y \in S : x <= y IN <<m>> \o SetToSortedSeq(S \ {m})
 (* one replay case per text: the real parallel parser with every worker count *)
-Emit == n = 0 /\ n' = 1 =>
-            Serialize(ToJson([kind |-> "parse", text |-> ConcreteText(text), workers |-> [i \in 1..(Len(text) + 2) |-> i]]) \o "\n", Out,
+Emit == n = 0 /\ n' > 0 /\ (Mode = "crlf" \/ n' = (CHOOSE m \in {mm \in NSet(text) : mm >= 1} : \A m2 \in {mm \in NSet(text) : mm >= 1} : m <= m2)) =>
+            Serialize(ToJson([kind |-> "parse", text |-> ctext, workers |-> IF Mode = "crlf" THEN <<n'>> ELSE SetToSortedSeq({mm \in NSet(text) : mm >= 1})]) \o "\n", Out,
                       [format |-> "TXT", charset |-> "UTF-8",
                        openOptions |-> <<"WRITE", "CREATE", "APPEND">>]).exitValue = 0
 Equivalence == n > 0 => ChunksCoverText(text, n) /\ ParallelEqualsSerial(text, n)
